@@ -253,6 +253,14 @@ fn sem_chunks<N: ArrayLength>() -> Option<String> {
             match r { Ok((c, r)) => if l != 0 || c != 0 || r != 0 { return Some(format!("chunks_from_slice_mut::<U0> on {l} elements returned ({c}, {r})")); }, Err(_) => if l == 0 { return Some("chunks_from_slice_mut::<U0> panics on an empty slice".into()); } }
             continue;
         }
+        {
+            // zero-sized elements: only the counts are observable, and N > 0 must never panic
+            let mut z = vec![(); l];
+            let r = catch_unwind(AssertUnwindSafe(|| { let (c, r) = GenericArray::<(), N>::chunks_from_slice(&z); (c.len(), r.len()) }));
+            if r.as_ref().ok() != Some(&(l / n, l % n)) { return Some(format!("chunks_from_slice::<(), U{n}> on {l} zero-sized elements: {:?}", r.ok())); }
+            let r = catch_unwind(AssertUnwindSafe(|| { let (c, r) = GenericArray::<(), N>::chunks_from_slice_mut(&mut z); (c.len(), r.len()) }));
+            if r.as_ref().ok() != Some(&(l / n, l % n)) { return Some(format!("chunks_from_slice_mut::<(), U{n}> on {l} zero-sized elements: {:?} (None = panicked)", r.ok())); }
+        }
         let base = raw.as_ptr() as usize;
         {
             let (c, r) = GenericArray::<u32, N>::chunks_from_slice(&raw[..l]);
